@@ -301,6 +301,111 @@ def _upper_bound_verdict(name: str, ub: Any, S: Poly) -> tuple[bool, str]:
                    "recognised as valid for this tie-breaker: cannot decide")
 
 
+def _lb_at(p: Any, val: dict[str, int], smallest: int) -> Fraction | None:
+    """Value of a lower-bound expression: polynomial over instance fields
+    with max/min, if-then-else on the field values and (at most) one
+    unrecognised running minimum over the item areas (`smallest`)."""
+    if not isinstance(p, Poly):
+        return None
+    tot = Fraction(0)
+    for mono, c in p.terms.items():
+        t = Fraction(c)
+        for a, e in mono:
+            v: Fraction | None
+            if a[0] == "var" and str(a[1]) in val:
+                v = Fraction(val[str(a[1])])
+            elif a[0] == "app" and a[1] in ("min", "max"):
+                vs = [_lb_at(q, val, smallest) for q in a[2]]
+                if any(x is None for x in vs):
+                    return None
+                v = min(vs) if a[1] == "min" else max(vs)    # type: ignore
+            elif a[0] == "ite":
+                cnd = _lb_cond(a[1], val, smallest)
+                if cnd is None:
+                    return None
+                v = _lb_at(a[2] if cnd else a[3], val, smallest)
+            elif a[0] == "opaque":
+                v = Fraction(smallest)
+            else:
+                return None
+            if v is None:
+                return None
+            t *= v ** e
+        tot += t
+    return tot
+
+
+def _lb_cond(c: tuple, val: dict[str, int], smallest: int) -> bool | None:
+    k = c[0]
+    if k in ("true", "false"):
+        return k == "true"
+    if k == "not":
+        r = _lb_cond(c[1], val, smallest)
+        return None if r is None else not r
+    if k in ("and", "or"):
+        rs = [_lb_cond(x, val, smallest) for x in c[1:]]
+        if any(r is None for r in rs):
+            return None
+        return all(rs) if k == "and" else any(rs)
+    if k in ("lt", "le", "eq"):
+        a, b = _lb_at(c[1], val, smallest), _lb_at(c[2], val, smallest)
+        if a is None or b is None:
+            return None
+        return a < b if k == "lt" else (a <= b if k == "le" else a == b)
+    return None
+
+
+def _lower_bound_witness(name: str, lb: Any, S: Poly) -> str | None:
+    """None, or the description of a feasible packing whose objective value
+    is below the declared lower bound (polynomial evaluation only).
+
+    An unrecognised running minimum in the bound is read as the smallest
+    item area - the only instance reduction the bounds use; if the bound
+    cannot be evaluated nothing is claimed."""
+    kind = _TIE_KIND.get(name)
+    if kind is None or not isinstance(lb, Poly):
+        return None
+    n_opaque = len({a for a in all_atoms(lb) if a[0] == "opaque"})
+    if n_opaque > 1:
+        return None
+    for w in (1, 2, 3, 7, 10):
+        for h in (1, 2, 3, 7, 10):
+            fams = [("one item filling the bin", {
+                "INST.n_items": 1, "INST.bin_width": w, "INST.bin_height": h,
+                "INST.total_item_area": w * h, "INST.n_different_items": 1,
+                "INST.lower_bound_bins": 1}, w * h, 1, {
+                "one": 1, "count": 1, "area": w * h, "skyline": w * h}),
+                ("two items that each fill a bin", {
+                    "INST.n_items": 2, "INST.bin_width": w,
+                    "INST.bin_height": h, "INST.total_item_area": 2 * w * h,
+                    "INST.n_different_items": 1,
+                    "INST.lower_bound_bins": 2}, w * h, 2, {
+                    "one": 1, "count": 1, "area": w * h, "skyline": w * h})]
+            for n in (2, 3, 5):
+                if n <= w:
+                    fams.append((f"{n} unit squares side by side on the "
+                                 "floor of one bin", {
+                        "INST.n_items": n, "INST.bin_width": w,
+                        "INST.bin_height": h, "INST.total_item_area": n,
+                        "INST.n_different_items": 1,
+                        "INST.lower_bound_bins": 1}, 1, 1, {
+                        "one": 1, "count": n, "area": n, "skyline": n}))
+            for what, val, smallest, bins, t in fams:
+                b = _lb_at(lb, val, smallest)
+                sv = _poly_at(S, val)
+                if b is None or sv is None:
+                    return None
+                v = sv * (bins - 1) + t[kind]
+                if b > v:
+                    return (f"{name}.lower_bound(): for a "
+                            f"{val['INST.bin_width']} x "
+                            f"{val['INST.bin_height']} bin and {what} the "
+                            f"objective value is {v} but lower_bound() "
+                            f"gives {b}: a feasible packing lies below the "
+                            "declared lower bound")
+    return None
+
+
 def _check_class(ctx: Ctx, cls: ClassInfo, idx_bin: int) -> None:
     repo = ctx.repo
     cm = ClassModel(ctx, cls)
@@ -465,6 +570,13 @@ def _check_class(ctx: Ctx, cls: ClassInfo, idx_bin: int) -> None:
            f"{show(lb)[:160] if isinstance(lb, Poly) else lb}; "
            f"lower_bound_bins must be scaled by {show(S)}",
            construct=f"lower_bound scale {cls.name}")
+    wl = _lower_bound_witness(cls.name, lb, S)
+    ctx.ob("D2.1", fi, fi.node, wl is None,
+           f"{cls.name}.lower_bound() stays at or below the value of three "
+           "families of feasible packings whose value is known (one item "
+           "filling the bin; n unit squares in a row in one bin; two items "
+           "that each fill a bin)" if wl is None else wl,
+           construct=f"lower_bound witnesses {cls.name}")
     # ---- D2.2 tie breaker
     name = cls.name
     want_t: Poly | None = None
